@@ -655,7 +655,9 @@ def estimator_cases(ctx, name, b, reps=1, kcenters=True):
         pos = rng.choice(['row', 'col', 'both']) if bip else 'row'
         lim = n_side[pos] if bip else b.shape[0]
         k = rng.randint(2, max(2, min(4, lim + (1 if rng.random() < 0.15 else 0))))
-        params = {'n_clusters': k, 'center_position': pos, 'n_init': rng.choice([1, 2]),
+        if rng.random() < 0.06:
+            k = rng.choice([1, 0])                     # refused: fewer than 2 clusters
+        params = {'n_clusters': k, 'center_position': pos, 'n_init': rng.choice([1, 2, 1, 2, 1, 2, 0]),
                   'directed': (not bip) and rng.random() < 0.3, 'max_iter': rng.choice([20, 20, 1, 0])}
         out += kcenters_cases(ctx, b, params, fb, rng.randrange(10 ** 6))
     ctx.count('graph:' + name)
@@ -723,6 +725,11 @@ def refusal_cases(ctx):
         out.append(Case(('refuse', 'prop', shape), {'entry': 'PropagationClustering', 'output': 'refusal'},
                         'c05.prop %d %d 0 - 1' % shape, impl, None, False, d))
     a = mk(3, [(0, 1), (1, 0)], [1.0, 1.0])
+    bi = mk(2, [(0, 0), (1, 2)], [1.0, 1.0], m=3)
+    for params, mat in (({'n_clusters': 1}, a), ({'n_clusters': 0}, a), ({'n_clusters': 2, 'n_init': 0}, a),
+                        ({'n_clusters': 4}, a), ({'n_clusters': 3, 'center_position': 'row'}, bi),
+                        ({'n_clusters': 2, 'center_position': 'foo'}, bi), ({'n_clusters': 2, 'max_iter': 0}, a)):
+        out += kcenters_cases(ctx, mat, params, False, 1)
     for name, cls in (('Louvain', Louvain), ('Leiden', Leiden)):
         impl = _call(lambda: (cls(modularity='foo').fit(a), 'ok')[1])
         cmd = 'c05.louvain' if name == 'Louvain' else 'c05.leiden'
